@@ -67,6 +67,11 @@ def make_problem(spec):
     if spec.get("nobox"):
         p.lb[:] = -np.inf
         p.ub[:] = np.inf
+    if spec.get("far_start"):
+        # start far from the solution (|x0| >> |x*|): lower bounds removed, start well below the upper bounds
+        p.lb[:] = -np.inf
+        fixed = ~np.isfinite(p.ub)
+        p.x0 = np.where(fixed, p.x0, p.ub) - float(spec["far_start"]) * (0.5 + rng.random(p.n))
     return p
 
 
